@@ -19,8 +19,13 @@ _INSTALLED = False
 
 
 class Sched:
+    """Hand-off is by one semaphore per managed thread plus one for the controller (a condition variable with notify_all woke
+    every thread at every step: ~0.7 ms per step, which made ten-thousand-detection runs impractical)."""
+
     def __init__(self, chooser):
-        self.cv = threading.Condition()
+        self.cv = threading.RLock()          # protects the tables below (name kept: callers use `with sched.cv`)
+        self.ctl = threading.Semaphore(0)    # released whenever a managed thread parks or finishes
+        self.sems = {}
         self.parked = {}
         self.grant = {}
         self.alive = set()
@@ -39,20 +44,24 @@ class Sched:
         self.names[threading.get_ident()] = name
         with self.cv:
             self.alive.add(name)
+            self.sems.setdefault(name, threading.Semaphore(0))
 
     def point(self, kind, info=None):
         name = self.me()
         if name is None:
             return "pass"
         with self.cv:
+            sem = self.sems.setdefault(name, threading.Semaphore(0))
             self.parked[name] = (kind, info)
-            self.cv.notify_all()
-            while name not in self.grant:
-                if self.aborted:
-                    raise SystemExit      # run abandoned (deadlock / budget): unwind this thread quietly
-                self.cv.wait(timeout=1)
+        self.ctl.release()
+        while True:
+            got = sem.acquire(timeout=1)
+            if self.aborted:
+                raise SystemExit      # run abandoned (deadlock / budget): unwind this thread quietly
+            if got:
+                break
+        with self.cv:
             d = self.grant.pop(name)
-            del self.parked[name]
         return d
 
     def note(self, **kw):
@@ -67,7 +76,7 @@ class Sched:
                 self.events.append(dict(th=name, pt="end"))
             self.alive.discard(name)
             self.finished.add(name)
-            self.cv.notify_all()
+        self.ctl.release()
 
     def enabled(self):
         en = []
@@ -94,16 +103,20 @@ class Sched:
         self._idle_rounds = 0 if nt else getattr(self, "_idle_rounds", 0) + 1
         return pool[self._rr % len(pool)]
 
+    def _quiescent(self):
+        with self.cv:
+            return not self.grant and all(n in self.parked for n in self.alive)
+
     def run(self, max_steps=20000, fair_steps=60000):
         while True:
+            t0 = time.time()
+            while not self._quiescent():
+                self.ctl.acquire(timeout=2)
+                if time.time() - t0 > 30 and not self._quiescent():
+                    # a managed thread neither finished nor reached a scheduling point: it blocks outside the controller
+                    self.abort()
+                    return "stuck"
             with self.cv:
-                t0 = time.time()
-                while any(n not in self.parked for n in self.alive) or self.grant:
-                    self.cv.wait(timeout=2)
-                    if time.time() - t0 > 30:
-                        # a managed thread neither finished nor reached a scheduling point: it blocks outside the controller
-                        self.abort()
-                        return "stuck"
                 if not self.alive:
                     return "done"
                 en = self.enabled()
@@ -127,12 +140,17 @@ class Sched:
                     return "unfollowable"
                 name, d = choice
                 self.grant[name] = d
-                self.cv.notify_all()
+                del self.parked[name]
+                sem = self.sems[name]
             self.steps += 1
+            sem.release()
 
     def abort(self):
         self.aborted = True
-        self.cv.notify_all()
+        with self.cv:
+            sems = list(self.sems.values())
+        for s_ in sems:
+            s_.release()
 
 
 def absmsg(x):
